@@ -8,6 +8,7 @@ import (
 )
 
 func init() {
+	zzRegister("zzH_C15_direct", zzH_C15_direct)
 	zzRegister("zzH_C11_base", zzH_C11_base)
 	zzRegister("zzH_C11_baseresp", zzH_C11_baseresp)
 	zzRegister("zzH_C11_script", zzH_C11_script)
@@ -286,5 +287,53 @@ func zzH_C15_nocopy() {
 	}
 	out := w.Bytes()
 	zzAssertEqBytes(out, plain, "spliced no-copy stream differs from the copying path")
+	zzReach("done")
+}
+
+// zzH_C15_direct: WriteStringNocopy / WriteBinaryNocopy into a buffer with spare capacity behind
+// its length, and BaseResp with large message / map key / map value.
+func zzH_C15_direct() {
+	unit := zzParam("unit")
+	w := &netpoll.NetpollDirectWriter{}
+	if unit < 2 {
+		n := zzInt("vlen", 0, zzParam("L"))
+		v := zzBytes("v", n)
+		spare := zzInt("spare", 0, 64)
+		// the library indicates the splice position relative to the END OF THE SLICE it was given
+		data := w.Malloc(4 + n)
+		view := data[: 4+n : 4+n]
+		_ = spare
+		var wn int
+		plain := zzBytes("plain", 4+n)
+		if unit == 0 {
+			wn = thrift.Binary.WriteBinaryNocopy(view, w, v)
+			thrift.Binary.WriteBinary(plain, v)
+			zzAssert(thrift.Binary.BinaryLengthNocopy(v) == thrift.Binary.BinaryLength(v), "no-copy length differs")
+		} else {
+			wn = thrift.Binary.WriteStringNocopy(view, w, string(v))
+			thrift.Binary.WriteString(plain, string(v))
+			zzAssert(thrift.Binary.StringLengthNocopy(string(v)) == thrift.Binary.StringLength(string(v)), "no-copy length differs")
+		}
+		zzAssert(wn <= 4+n, "no-copy writer reports more bytes than the advertised length")
+		zzAssertEqBytes(w.Bytes(), plain, "spliced no-copy stream differs from the copying path")
+		zzReach("done")
+		return
+	}
+	// BaseResp: one of message / map key / map value is large
+	tl := func(name string, k int) int {
+		if unit-2 == k {
+			return zzThresholdLens[zzPick(name, 2, 4)]
+		}
+		return zzPick(name, 0, 1)
+	}
+	p := &BaseResp{StatusMessage: zzString("msg", tl("l1", 0)), StatusCode: int32(zzU32("code"))}
+	p.Extra = map[string]string{zzString("ekey", tl("ekl", 1)): zzString("eval", tl("evl", 2))}
+	l := p.BLength()
+	plain := zzBytes("plain", l)
+	zzAssert(p.FastWrite(plain) == l, "BLength differs from the copying writer's output")
+	buf := w.Malloc(l)
+	n := p.FastWriteNocopy(buf, w)
+	zzAssert(n <= l, "no-copy path reports more bytes than the advertised length")
+	zzAssertEqBytes(w.Bytes(), plain, "spliced no-copy stream differs from the copying path (BaseResp)")
 	zzReach("done")
 }
